@@ -324,14 +324,14 @@ Lemma exec_list_single : forall n s sc t C sc',
 Proof.
   intros n s sc t C sc' H. destruct n as [|m]; [discriminate|]. rewrite exec_list_cons in H.
   destruct (exec m s sc) as [[[t0 c0] sc1]|] eqn:E; [|discriminate].
-  destruct c0 as [[v|]|l [v|]|l [v|]|v|v|p]; cbn [update_empty] in H;
-    try (inv H; exists m, t0; eexists; repeat split; eauto; fail);
-    (destruct m; [discriminate|]; rewrite exec_list_nil in H; inv H; rewrite app_nil_r;
-     exists (S m), t0; eexists; repeat split; eauto).
+  destruct c0 as [[v|]|l [v|]|l [v|]|v|v|p]; cbn [update_empty] in H.
+  all: try (destruct m; [discriminate|]; rewrite exec_list_nil in H).
+  all: inv H; rewrite ?app_nil_r; eexists _, _, _; split; [exact E|]; repeat split; auto.
+  all: simpl; intros; congruence.
 Qed.
 
 Lemma update_empty_unc : forall c v, is_unc (update_empty c v) = is_unc c.
-Proof. intros [[|]| ? [|] | ? [|] | | | ] v; reflexivity. Qed.
+Proof. intros [[?|]| ? [?|] | ? [?|] | ? | ? | ? ] w; reflexivity. Qed.
 
 Theorem finally_exactly_once_innermost_first : forall fs core n sc t C sc',
   NoDup (map fst fs) ->
@@ -349,7 +349,7 @@ Proof.
     assert (Hcl : evs_in id (wrap r core) = false).
     { apply wrap_clean. { apply Hcore. left. reflexivity. }
       intros i f' Hin. split.
-      - intro; subst. apply Hnotin. change i with (fst (i, f')). apply in_map. assumption.
+      - intro Heq. apply Hnotin. rewrite <- Heq. change i with (fst (i, f')). apply in_map. assumption.
       - apply (Hfs i f'); [right; assumption|left; reflexivity]. }
     assert (Hf : evs_in id f = false). { apply (Hfs id f); left; reflexivity. }
     pose proof (finally_exactly_once m (wrap r core) false SNil f id sc t0 C0 sc' Hcl eq_refl Hf E) as
@@ -369,8 +369,7 @@ Proof.
     apply app_inv_head in Heq. subst tf.
     apply exec_list_marker in EF. destruct EF as (m' & t' & Heq & EF). inv Heq.
     rewrite filter_app. simpl.
-    assert (Hid : existsb (Nat.eqb id) (id :: map fst r) = true) by (simpl; rewrite Nat.eqb_refl; reflexivity).
-    rewrite Hid.
+    rewrite Nat.eqb_refl. cbn [orb].
     rewrite (filter_none (id :: map fst r) t').
     2:{ intros e He Hin. destruct (trace_in_syntax m') as [_ [Hl _]].
         pose proof (Hl _ _ _ _ _ _ EF (EEv e) Hin) as X. simpl in X.
@@ -380,4 +379,148 @@ Proof.
     + rewrite map_app. reflexivity.
     + intros i Hi. apply Hcore. right. assumption.
     + intros i f' Hin i' Hi'. apply (Hfs i f'); right; assumption.
+Qed.
+
+(* ------------------------------------------------------------------------------------------------ *)
+(* for-of: return() exactly once iff the loop is left abruptly by its body *)
+
+Definition cnt_ret (id : nat) (t : list event) : nat :=
+  length (filter (fun e => event_eqb e (EReturn id)) t).
+
+Lemma cnt_ret_app : forall id a b, cnt_ret id (a ++ b) = cnt_ret id a + cnt_ret id b.
+Proof. intros. unfold cnt_ret. rewrite filter_app, app_length. reflexivity. Qed.
+
+Lemma cnt_ret_none : forall id t, ~ In (EReturn id) t -> cnt_ret id t = 0.
+Proof.
+  intros id t H. unfold cnt_ret. induction t as [|e t IH]; [reflexivity|]. simpl.
+  destruct (event_eqb e (EReturn id)) eqn:E.
+  - destruct e; simpl in E; try discriminate. apply Nat.eqb_eq in E. subst. exfalso. apply H. left. reflexivity.
+  - apply IH. intro. apply H. right. assumption.
+Qed.
+
+Lemma iter_close_cnt : forall it st,
+  cnt_ret (it_id it) (fst (iter_close it st)) =
+  if is_unc st then 0 else match it_ret it with RetMissing => 0 | _ => 1 end.
+Proof.
+  intros it st. unfold iter_close, cnt_ret.
+  destruct st; destruct (it_ret it); simpl; rewrite ?Nat.eqb_refl; reflexivity.
+Qed.
+
+Theorem iterator_closed_once : forall n l it body V idx sc t c sc',
+  exec_forof n l it body V idx sc = Some (t, c, sc') -> it_in (it_id it) body = false ->
+  (exists t0, t = t0 ++ [ENext (it_id it)] /\ cnt_ret (it_id it) t = 0 /\
+              exists v, c = CNormal (Some v) \/ c = CThrow v)
+  \/
+  (exists t0 tb cb m scb V',
+      t = t0 ++ ENext (it_id it) :: tb ++ fst (iter_close it (update_empty cb (Some V'))) /\
+      exec m body scb = Some (tb, cb, sc') /\ loop_continues cb l = false /\
+      c = loop_exit l (snd (iter_close it (update_empty cb (Some V')))) /\
+      cnt_ret (it_id it) t =
+        if is_unc cb then 0 else match it_ret it with RetMissing => 0 | _ => 1 end).
+Proof.
+  induction n as [|n IH]; intros l it body V idx sc t c sc' H Hnot; [discriminate|].
+  simpl in H.
+  destruct (match it_throw it with Some (j, v) => if Nat.eqb j idx then Some v else None | None => None end) eqn:ET.
+  { inv H. left. exists []. split; [reflexivity|]. split; [reflexivity|]. exists (VNum n0). right. reflexivity. }
+  destruct (Nat.leb (it_len it) idx).
+  { inv H. left. exists []. split; [reflexivity|]. split; [reflexivity|]. exists V. left. reflexivity. }
+  destruct (exec n body sc) as [[[tb cb] sc2]|] eqn:EB; [|discriminate].
+  assert (Hb : cnt_ret (it_id it) tb = 0).
+  { apply cnt_ret_none. intro Hin. destruct (trace_in_syntax n) as [Hs _].
+    pose proof (Hs _ _ _ _ _ EB _ Hin) as X. simpl in X. congruence. }
+  destruct (loop_continues cb l) eqn:LC.
+  - destruct (exec_forof n l it body (vor (cval cb) V) (S idx) sc2) as [[[t2 c2] sc3]|] eqn:E2; inv H.
+    apply IH in E2; auto. destruct E2 as [(t0 & -> & Hc & Hv) | (t0 & tb' & cb' & m & scb & V' & -> & Eb & Lc & -> & Hc)].
+    + left. exists (ENext (it_id it) :: tb ++ t0). split. { simpl. rewrite app_assoc. reflexivity. }
+      split; [|assumption].
+      change (ENext (it_id it) :: tb ++ t0 ++ [ENext (it_id it)]) with ([ENext (it_id it)] ++ tb ++ t0 ++ [ENext (it_id it)]).
+      rewrite !cnt_ret_app in *. rewrite Hb. simpl in *. lia.
+    + right. exists (ENext (it_id it) :: tb ++ t0), tb', cb', m, scb, V'.
+      split. { simpl. rewrite <- app_assoc. reflexivity. }
+      repeat split; auto.
+      rewrite <- Hc.
+      change (ENext (it_id it) :: tb ++ ?x) with ([ENext (it_id it)] ++ tb ++ x).
+      rewrite !cnt_ret_app. rewrite Hb. simpl. reflexivity.
+  - destruct (iter_close it (update_empty cb (Some V))) as [tr c'] eqn:EC. inv H.
+    right. exists [], tb, cb, n, sc, V. rewrite EC. simpl.
+    repeat split; auto.
+    change (ENext (it_id it) :: tb ++ tr) with ([ENext (it_id it)] ++ tb ++ tr).
+    rewrite !cnt_ret_app, Hb.
+    pose proof (iter_close_cnt it (update_empty cb (Some V))) as X. rewrite EC in X. simpl in X.
+    rewrite X, update_empty_unc. reflexivity.
+Qed.
+
+(* ------------------------------------------------------------------------------------------------ *)
+(* completion values (UpdateEmpty) *)
+
+Theorem completion_value_rules :
+  (* statement lists: the value of the last value-producing item, carried by abrupt completions too *)
+  (forall n s r acc sc,
+     exec_list (S n) (SCons s r) acc sc =
+     match exec n s sc with
+     | None => None
+     | Some (t, c, sc1) =>
+         match update_empty c acc with
+         | CNormal v => match exec_list n r v sc1 with
+                        | Some (t2, c2, sc2) => Some (t ++ t2, c2, sc2) | None => None end
+         | c' => Some (t, c', sc1)
+         end
+     end) /\
+  (* if and try never complete with an empty value *)
+  (forall n s1 s2 sc t c sc', exec n (If s1 s2) sc = Some (t, c, sc') ->
+     match c with CNormal None | CBreak _ None | CContinue _ None => False | _ => True end) /\
+  (forall n b hasc cc hasf f sc t c sc', exec n (Try b hasc cc hasf f) sc = Some (t, c, sc') ->
+     is_unc c = false ->
+     match c with CNormal None | CBreak _ None | CContinue _ None => False | _ => True end) /\
+  (* a loop that terminates normally yields a value (undefined if no iteration produced one) *)
+  (forall n k l body V skip sc t c sc', exec_loop n k l body V skip sc = Some (t, c, sc') ->
+     match c with CNormal None | CBreak _ None | CContinue _ None => False | _ => True end).
+Proof.
+  assert (UE : forall c v, match update_empty c (Some v) with
+                           | CNormal None | CBreak _ None | CContinue _ None => False | _ => True end).
+  { intros [[?|]| ? [?|] | ? [?|] | ? | ? | ? ] w; simpl; exact I. }
+  split; [reflexivity|]. split; [|split].
+  - intros n s1 s2 sc t c sc' H. destruct n; [discriminate|]. simpl in H.
+    destruct (cond sc) as [b sc1]. destruct (exec n (if b then s1 else s2) sc1) as [[[t0 c0] sc2]|]; inv H. apply UE.
+  - intros n b hasc cc hasf f sc t c sc' H U. destruct n; [discriminate|]. simpl in H.
+    destruct (exec_list n b None sc) as [[[tb B] sc1]|]; [|discriminate].
+    destruct (is_unc B) eqn:UB. { inv H. congruence. }
+    destruct (if hasc && is_throw B then _ else _) as [[[t1 C] sc2]|]; [|discriminate].
+    destruct (is_unc C) eqn:UC. { inv H. congruence. }
+    destruct hasf.
+    + destruct (exec_list n f None sc2) as [[[tf F] sc3]|]; inv H. apply UE.
+    + inv H. apply UE.
+  - induction n as [|n IH]; intros k l body V skip sc t c sc' H; [discriminate|]. simpl in H.
+    destruct (if skip then (true, sc) else cond sc) as [go sc1].
+    destruct (negb go). { inv H. exact I. }
+    destruct (exec n body sc1) as [[[t0 c0] sc2]|]; [|discriminate].
+    destruct (loop_continues c0 l).
+    + destruct (exec_loop n k l body (vor (cval c0) V) false sc2) as [[[t2 c2] sc3]|] eqn:E2; inv H.
+      eapply IH; eauto.
+    + inv H. specialize (UE c0 V). destruct (update_empty c0 (Some V)) as [[?|]| [?|] [?|] | ? [?|] | ? | ? | ? ];
+        simpl; try exact I; try contradiction; destruct l; simpl; try exact I; destruct (Nat.eqb _ _); exact I.
+Qed.
+
+(* ------------------------------------------------------------------------------------------------ *)
+(* S: after an uncatchable payload nothing of the script runs *)
+
+Theorem uncatchable_runs_nothing_S :
+  (forall n s r acc sc t p sc1, exec n s sc = Some (t, CUnc p, sc1) ->
+     exec_list (S n) (SCons s r) acc sc = Some (t, CUnc p, sc1)) /\
+  (forall n b hasc c hasf f sc t p sc1, exec_list n b None sc = Some (t, CUnc p, sc1) ->
+     exec (S n) (Try b hasc c hasf f) sc = Some (t, CUnc p, sc1)) /\
+  (forall n l it body V idx sc t p sc1,
+     (match it_throw it with Some (j, _) => Nat.eqb j idx | None => false end) = false ->
+     Nat.leb (it_len it) idx = false ->
+     exec n body sc = Some (t, CUnc p, sc1) ->
+     exec_forof (S n) l it body V idx sc = Some (ENext (it_id it) :: t, CUnc p, sc1)).
+Proof.
+  split; [|split].
+  - intros. rewrite exec_list_cons, H. reflexivity.
+  - intros. simpl. rewrite H. reflexivity.
+  - intros n l it body V idx sc t p sc1 HT HL H. simpl.
+    replace (match it_throw it with Some (j, v) => if Nat.eqb j idx then Some v else None | None => None end)
+      with (@None nat).
+    2:{ destruct (it_throw it) as [[j v]|]; auto. rewrite HT. reflexivity. }
+    rewrite HL, H. simpl. rewrite app_nil_r. reflexivity.
 Qed.
